@@ -155,11 +155,11 @@ C08 = dict(
         "c08_dyn_index_of_sparse": H("thorough", "index_of/last_index_of(true) across a missing page", "bits at 32761 and 65541 (concrete); query positions symbolic within 20 bits", "20-bit windows", rules=_BF_RULES, timeout=900, unwind=6, extra=UF),
         "c08_dyn_flush_layout": H("thorough", "flush: one StoreInfo per dirty page at 4096*page, LE words", "range from 32768-50, length 1..96 symbolic; info n, bit k symbolic", "start concrete", rules=_BF_RULES, timeout=900, unwind=6, extra=UF),
         "c08_dyn_open_one_page_first": H("quick", "open: has(j) == bit j of the file; 4096-byte file, byte 0 symbolic", "x: the byte value; j: any index < 4 pages", "file zero elsewhere; byte offset concrete per instance", rules=_BF_RULES, timeout=900, unwind=5, extra=FS9000),
-        "c08_dyn_open_one_page_last": H("thorough", "open: has(j) == bit j of the file; 4096-byte file, byte 4095 symbolic", "x: the byte value; j: any index < 4 pages", "file zero elsewhere; byte offset concrete per instance", rules=_BF_RULES, timeout=900, unwind=5, extra=FS9000),
+        "c08_dyn_open_one_page_last": H("quick", "open: has(j) == bit j of the file; 4096-byte file, byte 4095 symbolic", "x: the byte value; j: any index < 4 pages", "file zero elsewhere; byte offset concrete per instance", rules=_BF_RULES, timeout=900, unwind=5, extra=FS9000),
         "c08_dyn_open_two_pages_p0": H("thorough", "open: has(j) == bit j of the file; 8192-byte file (core > 32768 blocks), byte 1027 symbolic", "x: the byte value; j: any index < 4 pages", "file zero elsewhere; byte offset concrete per instance", rules=_BF_RULES, timeout=900, unwind=5, extra=FS9000),
         "c08_dyn_open_two_pages_p1_first": H("thorough", "open: has(j) == bit j of the file; 8192-byte file, byte 4096 symbolic", "x: the byte value; j: any index < 4 pages", "file zero elsewhere; byte offset concrete per instance", rules=_BF_RULES, timeout=900, unwind=5, extra=FS9000),
         "c08_dyn_open_two_pages_p1_last": H("thorough", "open: has(j) == bit j of the file; 8192-byte file, byte 8191 symbolic", "x: the byte value; j: any index < 4 pages", "file zero elsewhere; byte offset concrete per instance", rules=_BF_RULES, timeout=900, unwind=5, extra=FS9000),
-        "c08_dyn_open_partial_page": H("quick", "open: has(j) == bit j of the file; 4100-byte file (short last page), byte 4099 symbolic", "x: the byte value; j: any index < 4 pages", "file zero elsewhere; byte offset concrete per instance", rules=_BF_RULES, timeout=900, unwind=5, extra=FS9000),
+        "c08_dyn_open_partial_page": H("thorough", "open: has(j) == bit j of the file; 4100-byte file (short last page), byte 4099 symbolic", "x: the byte value; j: any index < 4 pages", "file zero elsewhere; byte offset concrete per instance", rules=_BF_RULES, timeout=900, unwind=5, extra=FS9000),
         "c08_bitfield_open_size_step": H("quick", "open(size) asks for whole words only", "store length < 2^40", "none", unwind=6, extra=UF),
         "c08_contiguous_length_step": H("quick", "inductive step of contiguous-length maintenance", "window w: all 2^15 patterns of blocks 0..14; update drop/start/length anywhere inside", "16-block window", rules=_BF_RULES, timeout=600, unwind=6, extra=UF),
     },
@@ -428,7 +428,7 @@ C03["harnesses"].update({
     "c03_block_plus_upgrade_honest": _T("honest proof with a block below the replica's length plus an upgrade from its length is accepted and commitable", "2 block bytes, sibling hash, new leaf hash", "replica 2 blocks -> 3", timeout=2400, tier="thorough", memloop=True, mem_gb=20),
 })
 C04["harnesses"].update({
-    "c04_block_plus_upgrade_altered_block": _T("a genuine upgrade does not switch off the block check: block below the replica's length with one altered byte + valid upgrade is refused, replica unchanged", "position and value of the altered byte, 2 block bytes, sibling hash, new leaf hash", "replica 2 blocks -> 3", timeout=2400, tier="thorough", memloop=True, mem_gb=20),
+    "c04_block_plus_upgrade_altered_block": _T("a genuine upgrade does not switch off the block check: block below the replica's length with one altered byte + valid upgrade is refused, replica unchanged", "position and value of the altered byte, 2 block bytes, sibling hash, new leaf hash", "replica 2 blocks -> 3", timeout=1800, tier="thorough", mem_gb=14),
 })
 C05["groups"] = [dict(variant="model", patterns=["c05_", "c02_replay_truncate_merges"])]
 C05["harnesses"].update({
